@@ -65,11 +65,11 @@ def model_phase(q):
         r.witnesses = [ln.strip().strip('"').replace('\\"', '"') for ln in r.out.splitlines() if "WITNESS" in ln and ln.lstrip().startswith('"')]
         runs.append(r)
     # self-consistency of the reference interpreters
-    for fmt in ("mus", "xmi"):
-        n = 3 if q else 4
+    for fmt in ("mus", "xmi", "session"):
+        n = (4 if q else 5) if fmt == "session" else (3 if q else 4)
         cfg = checks.write_cfg("ConvMC_%s_%d.cfg" % (fmt, n), MC_CFG % {"fmt": fmt, "n": n})
         r = vc.run_tlc("ConvMC", cfg=cfg, timeout=3000, heap="8g", workers=jobs(), tag="ConvMC-" + fmt)
-        r.scope = {"module": "ConvMC", "format": fmt, "max_events": n, "alphabet": 42 if fmt == "mus" else 30}
+        r.scope = {"module": "ConvMC", "format": fmt, "max_events": n, "alphabet": 42 if fmt == "mus" else 12 if fmt == "session" else 30}
         r.witnesses = []
         runs.append(r)
     return runs
@@ -112,6 +112,12 @@ def make_histories(rng, q):
         xmi.append(gen_conv.xmi_history(rng, f))
     parts.append(("xmi_random", xmi))
     parts.append(("rmi_gmf_wrappings", [gen_conv.container_history(rng, maxev=10 if q else 24) for _ in range(140 if q else 2000)]))
+    # several files in a row on ONE player: every load is judged like a single load (own generator stream: the classes above stay as they were)
+    srng = random.Random(vc.seed() * 104729 + 171)
+    sess = gen_conv.session_pairs(srng) if q else [h for _ in range(8) for h in gen_conv.session_pairs(srng)]
+    for i in range(30 if q else 1200):
+        sess.append(gen_conv.session_history(srng, nfiles=srng.choice([2, 3, 3, 4] if q else [2, 3, 4, 5, 6, 8]), nev=srng.choice([3, 6] if q else [3, 6, 14, 30])))
+    parts.append(("sessions_several_files_on_one_player", sess))
     return parts
 
 
@@ -164,7 +170,8 @@ def check_c17(pid, tier, replay):
     histories = [h for (_, hs) in parts for h in hs]
     byname = dict(parts)
     samples = sample(byname["mus_random"], 1) + sample(byname["xmi_random"], 1) + sample(byname["rmi_gmf_wrappings"], 1) + \
-        sample(byname["mus_exhaustive_short"][40:], 1) + sample(byname["mus_malformed_convert_only"], 1)
+        sample(byname["mus_exhaustive_short"][40:], 1) + sample(byname["mus_malformed_convert_only"], 1) + \
+        sample(byname["sessions_several_files_on_one_player"][1:], 1)
     random.Random(vc.seed()).shuffle(histories)       # balance the chunks
     failures, counters, stats = vtrace.run_histories(pid, HARNESS, TRACE, histories, nchunks=jobs(), tlc_timeout=2400)
     if stats["infra"]:
@@ -194,6 +201,12 @@ def check_c17(pid, tier, replay):
         "refinement": {"converter_outputs_checked_against_model": c.get("refined", 0), "mus": c.get("refMus", 0), "xmi": c.get("refXmi", 0),
                        "songs": c.get("refSongs", 0), "smf_events_compared": c.get("refEvents", 0), "skipped": c.get("refskip", 0),
                        "rejections_agreed": c.get("refRejected", 0), "drifted": c.get("drifted", 0), "first_drifts": stats.get("drift", [])[:5]},
+        "sessions": {"what": "several files in a row on ONE player, each load judged like a single load (spec/XmiRef.tla Sess*, model-checked by ConvMC Fmt=session)",
+                     "loads_after_an_earlier_load": c.get("sessLoads", 0), "xmi_after_xmi": c.get("sessXmiAfterXmi", 0),
+                     "xmi_after_mus_or_smf": c.get("sessXmiAfterOther", 0), "mus_or_smf_after_xmi": c.get("sessOtherAfterXmi", 0),
+                     "accepted_after_a_rejected_file": c.get("sessAfterRejected", 0), "files_cut_short": c.get("sessCutShort", 0),
+                     "song_counts_judged": c.get("sessCounts", 0), "plays_judged": c.get("sessPlays", 0), "xmi_plays_judged": c.get("sessXmiPlays", 0),
+                     "xmi_plays_of_a_song_other_than_0": c.get("sessSelPlays", 0), "plays_with_more_than_one_reading_of_the_selection": c.get("sessOpenSel", 0)},
         "exhaustive": False,
     }
     for r in mruns:
